@@ -43,9 +43,17 @@ def assemble(item, out_dir, tag):
         kw['max_recursion_depth'] = item['max_recursion_depth']
     try:
         with contextlib.redirect_stdout(io.StringIO()):
-            flipjump.assemble([Path(f) for f in item['files']], out, memory_width=item['w'], use_stl=item['stl'],
-                              fjm_version=FJMVersion(item.get('version', 3)), warning_as_errors=item.get('werror', True),
-                              debugging_file_path=dbg, print_time=False, **kw)
+            if item.get('low_level'):
+                # the assembler's own entry point, with the paths exactly as given (relative to the current directory)
+                from flipjump.assembler import assembler
+                from flipjump.fjm.fjm_writer import Writer
+                writer = Writer(out, item['w'], FJMVersion(item.get('version', 3)))
+                assembler.assemble([(f'f{k + 1}', Path(f)) for k, f in enumerate(item['files'])], item['w'], writer,
+                                   warning_as_errors=item.get('werror', True), debugging_file_path=dbg, print_time=False, **kw)
+            else:
+                flipjump.assemble([Path(f) for f in item['files']], out, memory_width=item['w'], use_stl=item['stl'],
+                                  fjm_version=FJMVersion(item.get('version', 3)), warning_as_errors=item.get('werror', True),
+                                  debugging_file_path=dbg, print_time=False, **kw)
         return {'ok': True, 'fjm': hashlib.sha256(out.read_bytes()).hexdigest(), 'fjd': hashlib.sha256(dbg.read_bytes()).hexdigest(),
                 'fjm_size': out.stat().st_size}
     except flipjump.FlipJumpException as exc:
@@ -96,6 +104,9 @@ def layout_variants(rng: random.Random, scratch: Path, count: int) -> List[Dict[
         out.append({'files': [str(path)], 'w': w, 'stl': True, 'name': f'layout-variant-{k}'})
     # a source that only WARNS (its outcome depends on the warning mode, in every process alike), one whose macro body holds a
     # 300-term expression (needs the default recursion limit), and flat programs of more than 2^16 data words
+    mac = scratch / 'macro_calls.fj'
+    mac.write_text('def mc a @ here {\n  here:\n  ;a\n  mc2 here\n}\ndef mc2 b @ back {\n  back:\n  ;b\n}\n;\nmc 0\nrep(3, i) mc i\n')
+    out.append({'files': [str(mac)], 'w': rng.choice([16, 32, 64]), 'stl': False, 'name': 'macro-calls-no-stl'})
     # two stl programs that use the same spelling differently: a constant in one, a label in the other
     ca = scratch / 'const_a.fj'
     ca.write_text('stl.startup\nfjc = 3\nfjd = 64\n;fjc*dw\nstl.loop\n')
@@ -201,7 +212,7 @@ def history_item(rng: random.Random, sources: List[Dict[str, Any]], scratch: Pat
             path.write_bytes(text)
         else:
             path.write_text(text)
-        stl = rng.random() < 0.4
+        stl = rng.random() < 0.4 and not case.get('bounded')   # (the work of a "bounded" case is bounded at ITS width only)
         return {'files': [str(path)], 'w': 64 if stl else case['w'], 'stl': stl, 'werror': True, 'name': 'fail:' + case['class'],
                 'max_recursion_depth': case.get('max_recursion_depth')}
     if r < 0.68:
@@ -264,6 +275,16 @@ def run_shard(spec: Dict[str, Any], journal: Any) -> Dict[str, Any]:
             probe_src = by_name['stl-same-spelling-as-label']
             history.insert(0, dict(by_name['stl-with-constants'], werror=werror, version=1))
             judge.count('targeted/constants-of-the-first-stl-program')
+        elif 0.46 <= r < 0.54:
+            # the probe's own file assembled a moment ago as the SECOND file of another list (it was "f2" then, it is "f1" now)
+            candidates = [src for src in sources if not src['stl'] and src['name'].startswith(('layout', 'macro', 'deep', 'warning'))] or \
+                [src for src in sources if not src['stl']]
+            probe_src = rng.choice(candidates)
+            probe = dict(probe_src, werror=False, version=rng.choice([1, 3]))
+            prelude = scratch / 'prelude.fj'
+            prelude.write_text('// a file of comments only\n\n')
+            history.append(dict(probe, files=[str(prelude)] + list(probe['files']), name='same-file-second-in-the-list'))
+            judge.count('targeted/same-file-under-another-short-name')
         elif r < 0.38 and 'seven-segments' in by_name:
             # a program with many segments (many assembler-declared labels), assembled under another string-hash seed
             probe = dict(by_name['seven-segments'], werror=True, version=rng.choice([1, 3]))
@@ -334,6 +355,14 @@ def run_shard(spec: Dict[str, Any], journal: Any) -> Dict[str, Any]:
             judge.count('fresh_other_directory')
             if moved and moved['probe']['ok'] and (moved['probe']['fjm'] != fresh['fjm'] or moved['probe']['fjd'] != fresh['fjd']):
                 bad('bytes-depend-on-directory-or-hashseed', f'probe {probe_src["name"]}: bytes differ from another directory / hash seed')
+            if not probe['stl']:
+                # relative paths, a process that changed its directory AFTER importing the library, the assembler's own entry point
+                rel = judge.child({'history': [], 'probe': dict(probe, files=[Path(f).name for f in copied], low_level=True),
+                                   'chdir': str(copy_dir)}, hashseed='0')
+                judge.count('relative_paths_after_a_change_of_directory')
+                if rel and (not rel['probe']['ok'] or rel['probe']['fjm'] != fresh['fjm']):
+                    bad('result-depends-on-the-directory-at-import-time', f'probe {probe_src["name"]}: relative paths after a chdir give '
+                        f'{"another image" if rel["probe"]["ok"] else rel["probe"].get("error")}')
             shutil.rmtree(copy_dir, ignore_errors=True)
         if len(samples) < 1:
             samples.append({'probe': probe_src['name'], 'w': probe['w'], 'history': names, 'fresh_sha256': fresh['fjm'][:16]})
